@@ -254,6 +254,28 @@ def body_end_to_end(ctx, kind):
         if removed:
             ds = ds.drop_vars('x_left')
             expect = 'CFGrid2D'
+    elif kind.startswith('shoc_simple_version_'):
+        # the ems_version attribute marks a SHOC file whatever its value (an empty text, a zero)
+        ds = builders.shoc_simple(2, 3)
+        ds.attrs['ems_version'] = {'empty': '', 'zero': 0, 'npzero': numpy.int32(0), 'false': 'False', 'blank': ' '}[kind.rsplit('_', 1)[1]]
+        expect = 'ShocSimple'
+        if removed:
+            del ds.attrs['ems_version']
+            expect = 'CFGrid2D'
+    elif kind == 'cf2d_rotated_axes':
+        # a rotated-pole file: 1-D rlat / rlon axes (standard names grid_latitude / grid_longitude, units degrees)
+        # stored ahead of the true 2-D latitude / longitude
+        jj, ii = numpy.meshgrid(numpy.arange(2.0), numpy.arange(3.0), indexing='ij')
+        ds = xarray.Dataset(
+            {'rlat': (('rlat',), numpy.array([-1.0, 1.0]), {'standard_name': 'grid_latitude', 'units': 'degrees'}),
+             'rlon': (('rlon',), numpy.array([-2.0, 0.0, 2.0]), {'standard_name': 'grid_longitude', 'units': 'degrees'}),
+             'lat': (('rlat', 'rlon'), 10.0 + jj + 0.1 * ii, {'standard_name': 'latitude', 'units': 'degrees_north'}),
+             'lon': (('rlat', 'rlon'), 100.0 + ii - 0.1 * jj, {'standard_name': 'longitude', 'units': 'degrees_east'}),
+             't': (('rlat', 'rlon'), numpy.zeros((2, 3)))})
+        expect = 'CFGrid2D'
+        if removed:
+            ds = ds.drop_vars(['lat', 'lon'])
+            expect = None
     elif kind.startswith('shoc_standard_longname'):
         # a coordinate replaced by a variable whose (longer) name starts the same way: still a near miss
         ds = builders.shoc_standard(2, 3)
@@ -468,7 +490,8 @@ def cases(tier):
     for kind in ('cf1d', 'cf2d', 'shoc_simple', 'shoc_simple_i', 'shoc_simple_j', 'shoc_standard', 'shoc_standard_xgrid', 'shoc_standard_ycentre',
                  'ugrid_marker', 'ugrid_mesh', 'nothing'):
         yield Case(f'detect:{kind}', body_end_to_end, dict(kind=kind), max_paths=10)
-    for kind in ('shoc_standard_longname_ycentre', 'shoc_standard_longname_xcentre', 'shoc_standard_longname_xgrid',
+    for kind in ('shoc_simple_version_empty', 'shoc_simple_version_zero', 'shoc_simple_version_npzero', 'shoc_simple_version_false', 'shoc_simple_version_blank', 'cf2d_rotated_axes',
+                 'shoc_standard_longname_ycentre', 'shoc_standard_longname_xcentre', 'shoc_standard_longname_xgrid',
                  'many_registered_below', 'many_registered_ties', 'many_registered_late_winner', 'many_registered_mixed'):
         yield Case(f'detect:{kind}', body_end_to_end, dict(kind=kind), max_paths=10)
     yield Case('detect:thin_subclass', body_end_to_end, dict(kind='thin_subclass'), max_paths=10)
